@@ -122,10 +122,11 @@ impl Check for C01 {
                 if r.chance(1, 20) {
                     // clock times held in names: bound now, used by whatever text comes later (another day, another year)
                     let nm = *r.pick(&["alpha", "budget", "netto", "salary"]);
-                    match r.below(4) {
+                    match r.below(5) {
+                        4 => lines.push(Line::Raw(format!("{} = {}/{}/{} at {}:{:02}", nm, 1 + r.below(28), 1 + r.below(12), 1990 + r.below(60), r.below(24), r.below(60)))),
                         0 | 1 => lines.push(Line::Raw(format!("{} = {}:{:02}{}", nm, r.below(24), r.below(60), r.pick(&["", "", " EST", " CET"])))),
                         2 => lines.push(Line::Raw(format!("{} to {}:{:02}", nm, r.below(24), r.below(60)))),
-                        _ => lines.push(Line::Raw(format!("{} {}", nm, r.pick(&["EST", "to CET", "+ 2 hours", "as unix"])))),
+                        _ => lines.push(Line::Raw(format!("{}{}", nm, r.pick(&["", " EST", " to CET", " + 2 hours", " as unix"])))),
                     }
                 }
                 if r.chance(1, 25) {
@@ -148,6 +149,11 @@ impl Check for C01 {
                 if !have_session || r.chance(1, 8) {
                     have_session = true;
                     events.push(Event { actor: 0, op: Op::SessionNew { lang: lang.clone() }, clock: ClockScript::Frozen { t } });
+                }
+                if r.chance(1, 10) {
+                    // the live session is switched to another language tag (also one the configuration does not know);
+                    // whatever its names hold is printed under that tag from now on
+                    events.push(Event { actor: 0, op: Op::SessionLang { lang: r.pick(&["xx", "de", "", "tr", "en"]).to_string() }, clock: ClockScript::Frozen { t } });
                 }
                 events.push(Event { actor: 0, op: Op::SessionText { text }, clock });
             } else {
